@@ -107,6 +107,11 @@ def r1_plumbing(ctx, rep):
     bev = astq.trace_block(b.body, cs.fn, res)
     child_vars = sorted({e.target for e in bev if e.kind == "assign" and e.target in cs.carried})
     if len(child_vars) != 1:
+        # several loop-carried names are assigned (e.g. a diagnostic flag): the child default is the one that the
+        # constructor arms hand to the entities they create
+        handed = {c.perm for a in cs.arms for c in a.constructs if c.perm}
+        child_vars = [v for v in child_vars if v in handed]
+    if len(child_vars) != 1:
         raise AnalysisError(f"bare access arm: the tracked child default was not identified ({child_vars})")
     child = child_vars[0]
     for arm in cs.arms:
@@ -175,7 +180,7 @@ def r2_declaration_attributes(ctx, rep):
     for q, want in (("sourceform.line_to_variables", {"public", "private", "protected"}),
                     ("FortranType._initialize", {"public", "private"}),
                     ("FortranBoundProcedure._initialize", {"public", "private"})):
-        fn = py.func(q)
+        fn = py.ifunc(q)        # canonical form: a helper that classifies the attributes is part of the function
         sets = access_tests(fn)
         if not sets:
             raise AnalysisError(f"{q}: access attribute test not found")
@@ -184,7 +189,7 @@ def r2_declaration_attributes(ctx, rep):
         # and the branch assigns the permission from the tested text
         ev = astq.trace(fn)
         tested = ast.unparse(node.left)
-        assigns = [e for e in ev if e.kind == "assign" and e.target and e.target.split(".")[-1] == "permission" and e.value is not None
+        assigns = [e for e in ev if e.kind == "assign" and e.target and astq.base_name(e.target.split(".")[-1]) == "permission" and e.value is not None
                    and any(ast.unparse(node) in c and not c.startswith("not") for c in e.cond_texts())]
         rep.ob(f"{q} access attributes", ok and bool(assigns),
                f"recognises {sorted(vals)} and assigns the permission" if ok and assigns else
